@@ -12,13 +12,25 @@ for sub in sorted(os.listdir(os.path.join(HERE, "seeded"))):
     d = os.path.join(HERE, "seeded", sub)
     meta = json.load(open(os.path.join(d, "meta.json")))
     pid = meta["property"]
-    assert subprocess.run(["git", "-C", "/repo", "status", "--porcelain"], capture_output=True, text=True).stdout.strip() == "", "/repo not clean"
-    subprocess.check_call(["git", "-C", "/repo", "apply", os.path.join(d, "patch.diff")])
-    try:
-        env = dict(os.environ, VERIF_EVIDENCE_DIR="/tmp/seeded_evidence", VERIF_REPLAY_DIR="/tmp/seeded_replays")
-        r = subprocess.run([os.path.join(HERE, "check"), pid, "--tier", "quick"], env=env, capture_output=True, text=True)
-    finally:
-        subprocess.check_call(["git", "-C", "/repo", "checkout", "--", "."])
+    env = dict(os.environ, VERIF_EVIDENCE_DIR="/tmp/seeded_evidence", VERIF_REPLAY_DIR="/tmp/seeded_replays")
+    if os.environ.get("SEED_SCRATCH"):
+        # while another run is reading /repo: apply the change to a scratch copy instead and point the check at it
+        import shutil
+        scratch = f"/tmp/seedrepo_{sub}"
+        shutil.rmtree(scratch, ignore_errors=True)
+        subprocess.check_call(["git", "clone", "-q", "/repo", scratch])
+        subprocess.check_call(["git", "-C", scratch, "apply", os.path.join(d, "patch.diff")])
+        try:
+            r = subprocess.run([os.path.join(HERE, "check"), pid, "--tier", "quick"], env=dict(env, VERIF_REPO=scratch), capture_output=True, text=True)
+        finally:
+            shutil.rmtree(scratch, ignore_errors=True)
+    else:
+        assert subprocess.run(["git", "-C", "/repo", "status", "--porcelain"], capture_output=True, text=True).stdout.strip() == "", "/repo not clean"
+        subprocess.check_call(["git", "-C", "/repo", "apply", os.path.join(d, "patch.diff")])
+        try:
+            r = subprocess.run([os.path.join(HERE, "check"), pid, "--tier", "quick"], env=env, capture_output=True, text=True)
+        finally:
+            subprocess.check_call(["git", "-C", "/repo", "checkout", "--", "."])
     buckets = [l.split("bucket=")[1].split(" ")[0] for l in r.stdout.splitlines() if "violation bucket" in l]
     res[sub] = {"property": pid, "exit": r.returncode, "buckets": buckets[:8]}
     print(("CAUGHT " if r.returncode == 1 else "MISSED ") + sub, r.returncode, buckets[:4], flush=True)
